@@ -3,7 +3,8 @@ EXTENDS NsCache, Json
 \* diamond a -> {b, c} -> d, an undefined supertype u of c
 MCSyms == {"a", "b", "c", "d", "u"}
 MCGraph == [x \in {"a", "b", "c", "d"} |-> CASE x = "a" -> {"b", "c"} [] x = "b" -> {"d"} [] x = "c" -> {"d", "u"} [] OTHER -> {}]
-Q1 == {<<"sup", "a">>, <<"allsup", "a">>, <<"inh", "a">>, <<"inh", "b">>, <<"fits", "a", "d">>, <<"fits", "b", "a">>, <<"inh", "u">>, <<"sup", "d">>}
+Q1 == {<<"sup", "a">>, <<"allsup", "a">>, <<"inh", "a">>, <<"inh", "b">>, <<"fits", "a", "d">>, <<"fits", "b", "a">>, <<"inh", "u">>, <<"sup", "d">>,
+       <<"fits", "c", "u">>}     \* an undefined base: answered without touching a cache
 Progs1 == {<<q>> : q \in Q1}
 Q3 == {<<"inh", "a">>, <<"fits", "a", "d">>, <<"allsup", "a">>, <<"sup", "c">>, <<"inh", "u">>, <<"fits", "d", "a">>}
 ProgsSeq == {<<q>> : q \in Q3} \cup {<<q1, q2>> : q1, q2 \in Q3} \cup {<<q1, q2, q3>> : q1, q2, q3 \in Q3}
